@@ -111,7 +111,8 @@ static int cmp_key(const void *a, const void *b, void *p)
      * verdict on logical steps, not on time */
     VRT_CHECK(cmp_budget-- > 0, "dlist.sort.runaway", "sort made more than 64*n+64 comparisons");
     VRT_COUNT("cb.sort-compare");
-    return (x->key > y->key) - (x->key < y->key);
+    /* only the sign is specified: the magnitude is unrelated to the key distance */
+    return ((x->key > y->key) - (x->key < y->key)) * (1 + (x->id * 131 + y->id * 31) % 997);
 }
 
 static int find_tag;
